@@ -198,11 +198,11 @@ def format_code(
             for node in core.filter_nodes(module.body, ast.ClassDef)
             for funcdef in core.filter_nodes(node.body, fdef_types)
         }
-        class_members = {  # Bare names of methods and attributes of classes in module scope
+        class_members = {  # Bare names of methods, nested classes and attributes of classes in module scope
             name
             for node in core.filter_nodes(module.body, ast.ClassDef)
             for name in itertools.chain(
-                (funcdef.name for funcdef in core.filter_nodes(node.body, fdef_types)),
+                (member.name for member in core.filter_nodes(node.body, def_types)),
                 (target.id for target in parsing.iter_assignments(node)),
             )
         }
